@@ -69,6 +69,16 @@ def _euler_ok(V):
             and abs(1 + V[0, 0] + V[1, 1] + V[2, 2]) >= 0.05)
 
 
+def _singular_rotation(rng):
+    """proper rotations sitting exactly on a function's own singularity: half-turns (1 + tr U = 0: u_to_rod / ubi_to_rod raise
+    their own ValueError) and gimbal locks; all entries are exact in floating point"""
+    half = [np.diag([-1.0, -1.0, 1.0]), np.diag([-1.0, 1.0, -1.0]), np.diag([1.0, -1.0, -1.0]),
+            np.array([[0.0, 1.0, 0.0], [1.0, 0.0, 0.0], [0.0, 0.0, -1.0]]), np.array([[0.0, 0.0, 1.0], [0.0, -1.0, 0.0], [1.0, 0.0, 0.0]]),
+            np.array([[-1.0, 0.0, 0.0], [0.0, 0.0, 1.0], [0.0, 1.0, 0.0]])]
+    lock = [np.eye(3), np.array([[0.0, -1.0, 0.0], [1.0, 0.0, 0.0], [0.0, 0.0, 1.0]]), np.array([[0.6, -0.8, 0.0], [0.8, 0.6, 0.0], [0.0, 0.0, 1.0]])]
+    return (rng.choice(half) if rng.random() < 0.7 else rng.choice(lock)).copy()
+
+
 def _good_rotation(rng):
     while True:
         U, _ = gens.rotation(rng, 'uniform')
@@ -123,21 +133,28 @@ def _bmat(mod, cell):
 def gen_call(rng, want_valid):
     """one API call description (JSON-serialisable): dict(mod, api, args, cls, kind)"""
     from xfab import tools, laue
-    api = rng.choice(['u_to_euler', 'u_to_rod', 'u_to_ubi', 'ubi_to_u', 'ubi_to_u_and_eps', 'euler_to_u', 'ub_to_u_b', 'Umis'])
+    api = rng.choice(['u_to_euler', 'u_to_rod', 'u_to_ubi', 'ubi_to_u', 'ubi_to_u_and_eps', 'euler_to_u', 'ub_to_u_b', 'Umis',
+                      'ubi_to_rod', 'ubi_to_u_b'])       # the last two reach the guards through ubi_to_u / ub_to_u_b
     modname = 'symmetry' if api == 'Umis' else rng.choice(['tools', 'laue'])
     mod = {'tools': tools, 'laue': laue}.get(modname, tools)
     cls = 'valid' if want_valid else 'invalid'
     if api in ('u_to_euler', 'u_to_rod', 'u_to_ubi'):
         V, kind = valid_rotation(rng) if want_valid else invalid_rotation(rng)
+        if want_valid and rng.random() < 0.2:
+            V, kind = _singular_rotation(rng), 'singular'      # valid input on which the function itself may raise
         args = {'U': V.tolist()}
         if api == 'u_to_ubi':
             args['cell'] = gens.cell(rng)[0]
-    elif api in ('ubi_to_u', 'ubi_to_u_and_eps', 'ub_to_u_b'):
+    elif api in ('ubi_to_u', 'ubi_to_u_and_eps', 'ub_to_u_b', 'ubi_to_rod', 'ubi_to_u_b'):
         cell = gens.cell(rng)[0]
         U = _good_rotation(rng)
+        if want_valid and rng.random() < 0.25:
+            U = _singular_rotation(rng)
         UB = U @ _bmat(mod, cell)
         M = UB if api == 'ub_to_u_b' else np.linalg.inv(UB) * (TWO_PI if modname == 'tools' else 1.0)
         kind = rng.choice(['exact', 'f32', 'pert'])
+        if not _euler_ok(U):
+            kind = 'exact'
         M = _valid_variant(rng, M, kind)
         if not want_valid:                                   # left-handed: determinant changes sign by a clear margin
             how = rng.choice(['swap', 'negrow', 'negall', 'negcol'])
@@ -213,7 +230,7 @@ def _invoke(c):
         return getattr(mod, api)(np.array(a['U']))
     if api == 'u_to_ubi':
         return mod.u_to_ubi(np.array(a['U']), list(a['cell']))
-    if api in ('ubi_to_u', 'ub_to_u_b'):
+    if api in ('ubi_to_u', 'ub_to_u_b', 'ubi_to_rod', 'ubi_to_u_b'):
         return getattr(mod, api)(np.array(a['M']))
     if api == 'ubi_to_u_and_eps':
         return mod.ubi_to_u_and_eps(np.array(a['M']), list(a['cell']))
